@@ -74,7 +74,7 @@ def surface_kwargs(s):
     if s.get('aperture'):
         from optiland.physical_apertures import RadialAperture
         a = s['aperture']
-        kw['aperture'] = RadialAperture(r_max=a['r_max'], r_min=a.get('r_min', 0.0))
+        kw['aperture'] = RadialAperture(r_max=fnum(a['r_max']), r_min=a.get('r_min', 0.0))     # r_max may be 'inf' (pure obscuration)
     c = s.get('coating')
     if c == 'fresnel':
         kw['coating'] = 'fresnel'
